@@ -1235,6 +1235,12 @@ bool ScriptVM::Process(ScriptContext& context, uinttime_t interruptTime)
                         // having a listener variable means the variable was just created
                         m_Stack.GetTop().setRefValue(listenerVar);
                     }
+                    else
+                    {
+                        // the field is provided by a getter: there is no variable to reference, and
+                        // OP_STORE_ARRAY_REF / OP_LOAD_ARRAY_VAR require a reference in this slot
+                        throw ScriptException("Cannot assign to an element of a read-only field");
+                    }
                 }
             }
             catch (...)
